@@ -20,6 +20,7 @@ OPDEFS = {
     "get3": lambda c: c.get(OID(oidstr(conc([1, 1, 1])))),          # the very OID the walks over [1] / [1,1] continue from (GET vs GETNEXT of the same name)
     "next3": lambda c: c.getnext(OID(oidstr(conc([1, 1, 1])))),
     "mget": lambda c: c.multiget([OID(oidstr(conc([1, 1, 1]))), OID(oidstr(conc([2, 1, 2])))]),
+    "mget150": lambda c: c.multiget([OID(oidstr(conc(DBV[i % len(DBV)][:2] + [i // len(DBV)]))) for i in range(150)]),
     "set": lambda c: c.set(OID(oidstr(conc([9, 9, 0]))), OctetString(b"written")),
     "set2": lambda c: c.set(OID(oidstr(conc([9, 8, 0]))), Integer(5)),
     "walkA": lambda c: _collect(c.walk(OID(oidstr(conc([1]))))),            # the "table"
